@@ -786,6 +786,7 @@ func c06_4(c *core.Ctx, p *core.Prog) {
 	if nPartial == 0 || nComplete == 0 {
 		c.Undecided("arms", p.Pos(fn.Pos()), core.FuncName(fn), fmt.Sprintf("expected a partial and a complete arm, found %d/%d", nPartial, nComplete))
 	}
+
 }
 
 func c06_5(c *core.Ctx, p *core.Prog) {
@@ -1238,4 +1239,66 @@ func c06_7(c *core.Ctx, p *core.Prog) {
 	}
 	c.Check(len(extra) == 0, "entry|writers", pos, core.FuncName(fn), "pending entries are written only by the item handler's append and the apportioning loop",
 		"pending entries are modified outside the append and the apportioning loop: "+strings.Join(extra, ", ")+" — an entry no longer describes exactly one request")
+}
+
+// c06_11 (= C18.10): the pending list stays in arrival order.
+func c06_11(c *core.Ctx, p *core.Prog) {
+	a := newCBPAnchors(p)
+	if !a.ok(c) {
+		return
+	}
+	fn := a.apportionFn()
+	st := a.shard.Underlying().(*types.Struct)
+	var pendingF *types.Var
+	for i := 0; i < st.NumFields(); i++ {
+		f := st.Field(i)
+		if sl, ok := f.Type().Underlying().(*types.Slice); ok && len(ctxFields(sl.Elem())) > 0 {
+			pendingF = f
+		}
+	}
+	if pendingF == nil || fn == nil {
+		c.Undecided("anchors", "?", "", "pending list not resolved")
+		return
+	}
+	pendElem := pendingF.Type().Underlying().(*types.Slice).Elem()
+	// the list stays in arrival order: the only whole entries written into it here are zero values (the slot
+	// vacated by the shift); moving an entry to another position (filling the hole with the last entry) makes
+	// the next batch be apportioned to a caller whose items are still queued
+	var moved []string
+	core.EachInstr(fn, func(i ssa.Instruction) {
+		s, ok := i.(*ssa.Store)
+		if !ok {
+			return
+		}
+		ia, ok := s.Addr.(*ssa.IndexAddr)
+		if !ok || !isFieldLoad(ia.X, pendingF) || !types.Identical(s.Val.Type(), pendElem) {
+			return
+		}
+		zero := false
+		if ld, ok := s.Val.(*ssa.UnOp); ok && ld.Op == token.MUL {
+			if al, ok := ld.X.(*ssa.Alloc); ok {
+				zero = true
+				for _, r := range core.Referrers(al) {
+					if r != ssa.Instruction(ld) {
+						if _, isDbg := r.(*ssa.DebugRef); !isDbg {
+							zero = false
+						}
+					}
+				}
+			}
+		}
+		if cst, ok := s.Val.(*ssa.Const); ok && cst.Value == nil {
+			zero = true
+		}
+		if !zero {
+			moved = append(moved, p.Pos(s.Pos()))
+		}
+	})
+	c.Check(len(moved) == 0, "order", p.Pos(fn.Pos()), core.FuncName(fn), "no entry is moved to another position of the pending list (only the vacated slot is zeroed)",
+		fmt.Sprintf("an entry of the pending list is overwritten with another entry (%v): the list is no longer in arrival order, while batches are cut from the front of the buffer — the next batch's outcome (and trace link) goes to a caller whose items were not in it", moved))
+}
+
+func init() {
+	register("C06", &core.Rule{ID: "C06.11", Title: "the pending list stays in arrival order (no entry is moved to another position)", Mod: core.ModCBP, Floor: 1, Run: c06_11})
+	register("C18", &core.Rule{ID: "C18.10", Title: "the pending list stays in arrival order (each batch is apportioned, and linked, to the callers whose items are in it)", Mod: core.ModCBP, Floor: 1, Run: c06_11})
 }
